@@ -175,11 +175,11 @@ def known_match(entry, case, fail):
 
 def subchecks(ctx):
     return [
-        Sub("sm-limit", case_a(), prop_a, {"quick": 300, "thorough": 8000},
+        Sub("sm-limit", case_a(), prop_a, {"quick": 900, "thorough": 8000},
             nontrivial=lambda c: abs(c["x1"] - c["x2"]) > 20.0,
             classes=lambda c: ["type:%d" % c["p"]["yuk"]["type"]],
             rule="aligned mass-basis point evaluated at two common values of m_h = m_hSM"),
-        Sub("decoupling", case_b(), prop_b, {"quick": 200, "thorough": 5000},
+        Sub("decoupling", case_b(), prop_b, {"quick": 600, "thorough": 5000},
             nontrivial=lambda c: True,
             classes=lambda c: ["type:%d" % c["yuk"]["type"]], known_match=known_match,
             rule="four-rung ladder in the heavy scale M at fixed quartic couplings"),
